@@ -8,6 +8,7 @@ mod fault;
 mod fsmodel;
 mod proc;
 mod linz;
+mod props_c11;
 mod props_e2;
 mod props_e3;
 mod sched;
@@ -65,6 +66,7 @@ fn parts(id: &'static str, tier: Tier, seed: u64) -> Vec<Part> {
         "C19" => vec![Part { rule: props_misc::C19_RULE.to_string(), run: Box::new(|ctx, acc| props_misc::run_c19(ctx, acc)) }],
         "C10" => vec![Part { rule: props_misc::C10_RULE.to_string(), run: Box::new(|ctx, acc| props_misc::run_c10(ctx, acc)) }],
         "C16" => vec![Part { rule: props_misc::C16_RULE.to_string(), run: Box::new(|ctx, acc| props_misc::run_c16(ctx, acc)) }],
+        "C11" => vec![Part { rule: props_c11::C11_RULE.to_string(), run: Box::new(|ctx, acc| props_c11::run_c11(ctx, acc)) }],
         "C14" => vec![Part { rule: props_e2::C14_RULE.to_string(), run: Box::new(|ctx, acc| props_e2::run_c14(ctx, acc)) }],
         _ => vec![],
     }
@@ -137,6 +139,7 @@ fn replay_case(id: &'static str, engine: &str, case: serde_json::Value) -> R<Cas
         "E2" => props_e2::replay_e2(id, case),
         "E2F" => props_e2::replay_c14(case),
         "E3" => props_e3::replay_e3(id, case),
+        "C11" => props_c11::replay_c11(case),
         "C17" => props_misc::replay_c17(case),
         "C19" => props_misc::replay_c19(case),
         "C10" => props_misc::replay_c10(case),
@@ -184,6 +187,10 @@ fn main() {
         }
         Some("worker") => {
             let code = proc::worker_main(&args[2..]);
+            std::process::exit(code);
+        }
+        Some("lockprobe") => {
+            let code = props_c11::lockprobe_main(&args[2..]);
             std::process::exit(code);
         }
         Some("forkserver") => {
